@@ -1,0 +1,11 @@
+//go:build verif
+
+// Contracts for the verification machinery in /verif (comment-only; compiled only with -tags verif).
+
+package hashing
+
+//@ spec validMH(model any, mh string) bool
+//
+//@ func IsValidModelMultihash
+//@   trusted
+//@   ensures (result == nil) == validMH(model, modelMultihash)
